@@ -164,6 +164,36 @@ SITE_COUNTS = {("deferred::LinearPolynomial.__init__", "TypeError"): 5, ("parser
                ("reports::handle_reports.__exit__", "UnrecoverableError"): 2}
 
 
+def _abstract_method(repo, q, fn, node):
+    """`raise NotImplementedError` as the body of C.m where every direct subclass of C defines m and C(...) is never called"""
+    mod, _, rest = q.partition("::")
+    parts = rest.split(".")
+    if len(parts) != 2 or not isinstance(fn, ast.FunctionDef):
+        return False
+    body = [st for st in fn.body if not (isinstance(st, ast.Expr) and isinstance(st.value, ast.Constant) and isinstance(st.value.value, str))]
+    if len(body) != 1 or body[0] is not node:
+        return False
+    cq = f"{mod}::{parts[0]}"
+    subs = [s_ for s_ in repo.subclasses(cq) if s_ != cq]
+    if not subs:
+        return False
+    called = set()
+    for m_ in repo.modules.values():
+        for c in ast.walk(m_.tree):
+            if isinstance(c, ast.Call):
+                called.add(c.func.id if isinstance(c.func, ast.Name) else c.func.attr if isinstance(c.func, ast.Attribute) else None)
+    if parts[0] in called:
+        return False                  # the class itself is instantiated
+    concrete = [s_ for s_ in subs if s_.split("::")[1].split(".")[-1] in called]
+    if not concrete:
+        return False
+    for s_ in concrete:               # intermediate classes that are never instantiated may inherit the stub
+        owner = repo.find_method(s_, parts[1])
+        if owner is None or owner == q:
+            return False
+    return True
+
+
 def rule_G2(ck):
     repo = ck.repo
     budget = {k: len(v) for k, v in TABLE_BY_SITE.items()}
@@ -195,6 +225,8 @@ def rule_G2(ck):
                     continue
         elif exc == "UnrecoverableError":
             verdict = ("ok", "the reported-failure exception")
+        elif exc == "NotImplementedError" and _abstract_method(repo, q, fn, node):
+            verdict = ("abstract", "the only statement of a method that every subclass overrides, in a class that is never instantiated itself: the body cannot run")
         elif (pq, exc) in TABLE_BY_SITE and budget.get((pq, exc), 0) > 0:
             budget[(pq, exc)] -= 1
             verdict = TABLE_BY_SITE[(pq, exc)][0]
@@ -309,7 +341,7 @@ def rule_D3(ck):
                 ck.instance(("settle", q, recv), {"site": q, "call": norm_text(c)[:70], "dominated by settled-test": bool(facts and "unsettled" in facts)}, fn=q)
                 if facts is not None and "unsettled" not in facts:
                     ck.violation(c, f"{recv}.settle(...) is not dominated by a test that the promise is still unsettled: a second assignment trips 'assert not self.settled' (internal error)", construct=f"settle without settled-test in {q.split('::')[1]}")
-    if n < 3:
+    if n < 2:          # three on the pinned tree; two of them (the default base of a file / of an include) may share a helper
         ck.unknown(f"only {n} settle() sites found (3 confirmed by hand)")
     # lookahead => maybe
     for q, fn in repo.all_functions():
@@ -749,12 +781,18 @@ def _g11_tuple_results(ck):
                 methods.setdefault(fn.name, set()).update(pos)
     ck.instance("tuple-sources", {"methods with a possibly-deferred number in a result position": {k: sorted(v) for k, v in sorted(methods.items())}})
     n = 0
+    shared_lists = {}        # (module, list name, position) -> origin: a list of tuples handed from one method to another keeps its name
+    todo = []
     for q, fn in repo.all_functions():
         if isinstance(fn, ast.Lambda) or "<locals>" in q or q.split("::")[0] in ("deferred", "devices", "_cli", "parser", "reports"):
             continue
         if any(q.split("::")[1].startswith(o.split("::")[1] + ".") for o, f2 in repo.all_functions() if o.split("::")[0] == q.split("::")[0] and isinstance(f2, ast.FunctionDef) and f2 is not fn and any(x is fn for x in ast.walk(f2))):
             continue                     # nested functions are walked with their outermost function
-        names, lists = {}, {}
+        todo.append((q, fn))
+    for pass_ in (0, 1):
+      for q, fn in todo:
+        names = {}
+        lists = {(k[1], k[2]): v for k, v in shared_lists.items() if k[0] == q.split("::")[0]} if pass_ else {}
         grew = True
         while grew:
             grew = False
@@ -781,6 +819,10 @@ def _g11_tuple_results(ck):
                         if isinstance(e, ast.Name) and (a.iter.id, i) in lists and e.id not in names:
                             names[e.id] = lists[(a.iter.id, i)]
                             grew = True
+        if not pass_:
+            for (ln, i), origin in lists.items():
+                shared_lists[(q.split("::")[0], ln, i)] = origin
+            continue
         if not names:
             continue
         for node in ast.walk(fn):
